@@ -31,7 +31,7 @@ CORRUPTIONS = ['literal_of_other_type', 'variable_at_two_types', 'plus_on_str', 
 
 def plan(tier, seed):
   return {'nshards': 16, 'timeout_s': 5400 if tier == 'thorough' else 1200,
-          'params': {'n_programs': 60 if tier == 'thorough' else 9}}
+          'params': {'n_programs': 36 if tier == 'thorough' else 9}}
 
 
 def render_type(t):
